@@ -77,6 +77,7 @@ void hwloc_topology_components_fini(struct hwloc_topology *t) { (void) t; }
 void hwloc_internal_distances_destroy(struct hwloc_topology *t) { (void) t; }
 void hwloc_internal_memattrs_destroy(struct hwloc_topology *t) { (void) t; }
 void hwloc_internal_cpukinds_destroy(struct hwloc_topology *t) { (void) t; }
+int hwloc_internal_cpukinds_rank(struct hwloc_topology *t) { (void) t; return 0; }      /* reached when the writer goes through hwloc_topology_refresh() */
 void hwloc_pci_discovery_exit(struct hwloc_topology *t) { (void) t; }
 #endif
 
